@@ -176,7 +176,7 @@ def _items():
     add('Meters',
         '#[derive(Debug, Clone, Copy, PartialEq, Default)]\npub struct Meters(pub i32);\n'
         'impl<\'a> arbitrary::Arbitrary<\'a> for Meters { fn arbitrary(u: &mut arbitrary::Unstructured<\'a>) -> arbitrary::Result<Self> { Ok(Meters(u.arbitrary()?)) } }\n'
-        'pub fn san_m(m: Meters) -> Meters { Meters(if m.0 > 50 { 50 } else { m.0 }) }\npub fn san_m2(m: Meters) -> Meters { Meters(if m.0 < 1 { 1 } else { m.0 }) }\n',
+        'pub fn san_m(m: Meters) -> Meters { Meters(if m.0 > 50 { 50 } else { m.0 }) }\npub fn san_m2(m: Meters) -> Meters { Meters(if m.0 < 1 { 1 } else { m.0 }) }\npub fn pred_m(m: &Meters) -> bool { m.0 != 7 && m.0 != 1 }\n',
         '')
     # inner type whose Display records the formatter it is handed (C13: Display transparency)
     add('Probe',
